@@ -458,21 +458,47 @@ func runProg(rep *hx.Report, w *world.World, prog []step, pi int) {
 		}
 		// ---- reveal: FETCH / SEARCH answers come from the selected mailbox ----
 		if (verb == "FETCH" || (verb == "UID" && strings.Contains(cmd, "UID FETCH"))) && r.OK() && s.selStor != "" && s.selStor != "other" {
-			content := before[s.selStor][s.selBox]
-			for _, l := range r.Untagged {
-				if m := reSubj.FindStringSubmatch(l); m != nil && !strings.Contains(content, ":"+m[1]+":") {
-					rep.Violate("impl-violation", "reveal", fmt.Sprintf("user %s (selected %s:%s) %q returned message %q which is not in the selected mailbox (%s)", st.actor, s.selStor, s.selBox, cmd, m[1], content), replay())
-					return
+			content, observable := before[s.selStor][s.selBox]
+			if !observable && s.selStor != "R" {
+				// a personal mailbox that was renamed to a name under "Roles/…" while selected: the session keeps it selected (by
+				// id), but no name reaches it any more — the observer's EXAMINE of that name goes to the role path. What it
+				// answers cannot be compared with a dump; it must at least not come out of somebody else's store.
+				for _, l := range r.Untagged {
+					if m := reSubj.FindStringSubmatch(l); m != nil {
+						for other, boxes := range before {
+							if other == s.selStor {
+								continue
+							}
+							for bn, c := range boxes {
+								if strings.Contains(c, ":"+m[1]+":") {
+									rep.Violate("impl-violation", "reveal", fmt.Sprintf("user %s (selected its own mailbox now named %s) %q returned message %q, which is in mailbox %s of store %s", st.actor, s.selBox, cmd, m[1], bn, other), replay())
+									return
+								}
+							}
+						}
+					}
 				}
+				rep.Hit("reveal-unobservable-selection")
+			} else {
+				for _, l := range r.Untagged {
+					if m := reSubj.FindStringSubmatch(l); m != nil && !strings.Contains(content, ":"+m[1]+":") {
+						rep.Violate("impl-violation", "reveal", fmt.Sprintf("user %s (selected %s:%s) %q returned message %q which is not in the selected mailbox (%s)", st.actor, s.selStor, s.selBox, cmd, m[1], content), replay())
+						return
+					}
+				}
+				rep.Hit("reveal-checked")
 			}
-			rep.Hit("reveal-checked")
 		}
 		if verb == "SEARCH" && r.OK() && s.selStor != "" && s.selStor != "other" {
 			n := 0
-			if c := before[s.selStor][s.selBox]; c != "" {
+			c, observable := before[s.selStor][s.selBox]
+			if c != "" {
 				n = len(strings.Split(c, ";"))
 			}
 			for _, l := range r.Untagged {
+				if !observable && s.selStor != "R" {
+					break // a personal mailbox under a "Roles/…" name: not reachable by name, see the FETCH case above
+				}
 				if strings.HasPrefix(l, "* SEARCH") {
 					for _, x := range strings.Fields(l)[2:] {
 						k, _ := strconv.Atoi(x)
